@@ -6,11 +6,17 @@
 // valid (readable, storage alive, previous value or empty), can be assigned to
 // and destroyed; after teardown no library allocation survives; ASan watches
 // for double / bad frees and use after free.
+// Scale phase: the same table (plus operations that need such objects) on
+// fixtures of 64 KiB .. 1 MiB in states only reached at scale - buffers and
+// strings cleared and re-allocated, copy-assigned a value of exactly their own
+// size, built by hundreds of appends, a stream grown to >= 64 KiB, cut back to
+// <= 256 bytes and appended to beyond its capacity; same enumeration, same monitors.
 #include "vrt.h"
 #include "vrt_alloc.h"
 #include "vrt_st.h"
 #include "ref_unicode.h"
 #include "gen_text.h"
+#include "gen_scale.h"
 #include <sstream>
 
 using vrt::Rng;
@@ -21,6 +27,7 @@ typedef std::string S;
 static std::string g_op;
 static int64_t g_k = 0;
 static std::string g_variant;
+static size_t g_max_request = 0;      // the biggest single request of the last counting run
 
 static void fail(const char *what, const std::string &detail)
 {
@@ -37,6 +44,99 @@ struct Obj {           // an object in a heap block of exactly sizeof(T) bytes
     T &operator*() { return *p; }
     T *operator->() { return p; }
 };
+
+
+// ---- scale fixtures --------------------------------------------------------------------------------------------------
+// Harness-side content of one scale case.  It is generated once per case; the library objects are rebuilt from it (and put
+// through the same history) for the counting run and for every fault index.
+struct Big {
+    S sv[3];
+    std::u16string b16v; std::u32string b32v; std::wstring bwv;
+    S bad8, bad8fix; std::u16string bad16; S bad16fix; std::u32string bad32; S bad32fix;
+    S stream_history;       // what the stream held when it was at its largest
+    size_t keep = 0;        // ... and how many bytes of that are left when the operation starts
+    unsigned cut = 0;       // 0: nothing removed, 1: truncate(), 2: truncate(keep), 3: erase(size - keep)
+    size_t chunk = 0;       // the history was appended in pieces of this size (0: one append)
+    unsigned hist[8] = {};  // how each target object got its value (see make_with_history)
+    unsigned shape = 0;
+    size_t L = 0;
+};
+enum { H_DIRECT, H_CLEARED_REALLOCATED, H_SAME_SIZE_COPY_ASSIGNED, H_MOVE_ASSIGNED, H_SAME_SIZE_THEN_NEIGHBOUR_CLEARED, H_MANY_APPENDS, N_HIST };
+
+template <typename T>
+static void make_with_history(Obj<ST::buffer<T>> &o, const std::basic_string<T> &v, unsigned h)
+{
+    const size_t n = v.size();
+    switch (h) {
+    case H_CLEARED_REALLOCATED:         // a big buffer cleared and allocated again
+        o.make(n / 2 + 17, T('p'));
+        o->clear();
+        o->allocate(n);
+        std::char_traits<T>::copy(o->data(), v.data(), n);
+        break;
+    case H_SAME_SIZE_COPY_ASSIGNED: {   // copy-assigned a value of exactly the size it already holds
+        o.make(n, T('p'));
+        ST::buffer<T> src(v.data(), n);
+        *o = src;
+        break;
+    }
+    case H_MOVE_ASSIGNED:
+        o.make(n + 5, T('p'));
+        *o = ST::buffer<T>(v.data(), n);
+        break;
+    case H_SAME_SIZE_THEN_NEIGHBOUR_CLEARED: {   // ... and afterwards other big objects of that size come and go
+        o.make(n, T('p'));
+        ST::buffer<T> src(v.data(), n), other(n, T('q')), third(n + 1, T('r'));
+        *o = src;
+        other.clear();
+        third = src;
+        break;
+    }
+    default:
+        o.make(v.data(), n);
+        break;
+    }
+}
+static void make_with_history(Obj<ST::string> &o, const S &v, unsigned h)
+{
+    const size_t n = v.size();
+    switch (h) {
+    case H_CLEARED_REALLOCATED:
+        o.make(ST::string::fill(n / 2 + 17, 'p'));
+        o->clear();
+        o->set_validated(v.data(), n);
+        break;
+    case H_SAME_SIZE_COPY_ASSIGNED: {
+        o.make(ST::string::fill(n, 'p'));
+        ST::string src = ST::string::from_validated(v.data(), n);
+        *o = src;
+        break;
+    }
+    case H_MOVE_ASSIGNED:
+        o.make(ST::string::fill(n + 5, 'p'));
+        *o = ST::string::from_validated(v.data(), n);
+        break;
+    case H_SAME_SIZE_THEN_NEIGHBOUR_CLEARED: {
+        o.make(ST::string::fill(n, 'p'));
+        ST::string src = ST::string::from_validated(v.data(), n), other = ST::string::fill(n, 'q'), third = ST::string::fill(n + 1, 'r');
+        *o = src;
+        other.clear();
+        third = src;
+        break;
+    }
+    case H_MANY_APPENDS:                // hundreds of consecutive appends on one object
+        if (n >= 600 && n <= 160 * 1024) {
+            o.make();
+            const size_t step = n / 300;
+            for (size_t at = 0; at < n; at += step) *o += ST::string::from_validated(v.data() + at, std::min(step, n - at));
+            break;
+        }
+        /* fall through */
+    default:
+        o.make(ST::string::from_validated(v.data(), n));
+        break;
+    }
+}
 
 struct Fix {
     Obj<ST::string> s[3];
@@ -59,6 +159,10 @@ struct Fix {
     bool stream_prefix_ok = false;   // the operation consists of several appends: after a fault any extension of the previous content is fine
     bool stream_moved = false;       // the operation moves the stream away: only structural validity is required of it
     Rng *r;
+    // scale fixtures only: the free room of the stream's current block (from the allocation registry) and its capacity
+    size_t stream_room = 0, stream_cap = 0;
+    size_t slack = 100000;           // sanity bound on a reported size before it is used to read the object (more than any operation of the table adds)
+    S blob;                          // harness-side bytes, longer than twice the stream's capacity
 
     void setup(Rng &rng, bool long_target, bool long_arg)
     {
@@ -102,6 +206,45 @@ struct Fix {
             bad32fix.clear(); ref::to_utf8(ref::decode_utf32(bad32.data(), bad32.size()), false, bad32fix);
         }
     }
+    // scale: the same fixtures holding 64 KiB .. 1 MiB, each brought to its value through a history (see Big)
+    void setup_scale(const Big &c)
+    {
+        r = nullptr;
+        slack = static_cast<size_t>(16) << 20;
+        for (int i = 0; i < 3; ++i) sv[i] = c.sv[i];
+        make_with_history(s[0], sv[0], c.hist[0]);
+        make_with_history(s[1], sv[1], c.hist[1]);
+        s[2].make(ST::string::from_validated(sv[2].data(), sv[2].size()));
+        cbv = sv[1]; b16v = c.b16v; b32v = c.b32v; bwv = c.bwv;
+        make_with_history<char>(cb, cbv, c.hist[2]);
+        make_with_history<char16_t>(b16, b16v, c.hist[3]);
+        make_with_history<char32_t>(b32, b32v, c.hist[4]);
+        make_with_history<wchar_t>(bw, bwv, c.hist[5]);
+        cbc.make(*cb); cbcv = cbv;
+        sc.make(*s[1]); scv = sv[1];
+        b32c.make(*b32); b32cv = b32v;
+        // the stream: grown (in one go or by many appends) to its largest size, then cut back
+        ss.make();
+        if (c.chunk == 0) ss->append(c.stream_history.data(), c.stream_history.size());
+        else for (size_t at = 0; at < c.stream_history.size(); at += c.chunk) ss->append(c.stream_history.data() + at, std::min(c.chunk, c.stream_history.size() - at));
+        switch (c.cut) {
+        case 1: ss->truncate(); break;
+        case 2: ss->truncate(c.keep); break;
+        case 3: ss->erase(c.stream_history.size() - c.keep); break;
+        default: break;
+        }
+        ssv = c.stream_history.substr(0, c.cut == 0 ? S::npos : c.keep);
+        {
+            va::HarnessScope hs;
+            va::Block *blk = ss.inside(ss->raw_buffer()) ? nullptr : va::find(ss->raw_buffer());
+            stream_cap = blk ? blk->size : static_cast<size_t>(ST_STACK_STRING_SIZE);
+            stream_room = stream_cap >= ss->size() ? stream_cap - ss->size() : 0;
+            blob.assign(2 * stream_cap + 3, 'B');
+        }
+        stds = sv[1];
+        stdw = bwv;
+        bad8 = c.bad8; bad8fix = c.bad8fix; bad16 = c.bad16; bad16fix = c.bad16fix; bad32 = c.bad32; bad32fix = c.bad32fix;
+    }
     void teardown()
     {
         for (auto &x : s) x.kill();
@@ -113,7 +256,7 @@ struct Fix {
     {
         const ST::buffer<T> &b = *o.p;
         const size_t n = b.size(), limit = (sizeof(ST::buffer<T>) - 16) / sizeof(T);
-        if (n > prev.size() + 100000) { fail("object-corrupt", sfmt("%s reports size %zu", name, n)); o.p = nullptr; return; }
+        if (n > prev.size() + slack) { fail("object-corrupt", sfmt("%s reports size %zu", name, n)); o.p = nullptr; return; }
         if (n >= limit) {
             va::Block *blk = va::find(b.data());
             if (!blk) { fail("points-to-released-storage", sfmt("%s (size %zu) data() is not a live block", name, n)); o.p = nullptr; return; }
@@ -127,7 +270,7 @@ struct Fix {
     {
         const ST::string &x = *o.p;
         const size_t n = x.size();
-        if (n > prev.size() + 100000) { fail("object-corrupt", sfmt("%s reports size %zu", name, n)); o.p = nullptr; return; }
+        if (n > prev.size() + slack) { fail("object-corrupt", sfmt("%s reports size %zu", name, n)); o.p = nullptr; return; }
         if (n >= 16) {
             if (!va::find(x.c_str())) { fail("points-to-released-storage", sfmt("%s (size %zu) data() is not a live block", name, n)); o.p = nullptr; return; }
         } else if (!o.inside(x.c_str())) { fail("points-outside-object", sfmt("%s (size %zu)", name, n)); o.p = nullptr; return; }
@@ -139,7 +282,7 @@ struct Fix {
     {
         const ST::string_stream &x = *ss.p;
         const size_t n = x.size();
-        if (n > ssv.size() + 100000) { fail("object-corrupt", sfmt("stream reports size %zu", n)); ss.p = nullptr; return; }
+        if (n > ssv.size() + slack) { fail("object-corrupt", sfmt("stream reports size %zu", n)); ss.p = nullptr; return; }
         const char *d = x.raw_buffer();
         if (!ss.inside(d)) {
             va::Block *blk = va::find(d);
@@ -177,13 +320,15 @@ struct Op {
     const char *name;
     std::function<void(Fix &)> run;
     bool iostream_protocol;     // failed stream state is an accepted way to report the failure
+    bool scale_only;            // needs the big fixtures of the scale phase (Fix::setup_scale)
 };
 
 static std::vector<Op> table()
 {
     std::vector<Op> t;
-#define OP(n, body) t.push_back(Op{n, [](Fix &f) { (void)f; body; }, false})
-#define IOP(n, body) t.push_back(Op{n, [](Fix &f) { (void)f; body; }, true})
+#define OP(n, body) t.push_back(Op{n, [](Fix &f) { (void)f; body; }, false, false})
+#define IOP(n, body) t.push_back(Op{n, [](Fix &f) { (void)f; body; }, true, false})
+#define SOP(n, body) t.push_back(Op{n, [](Fix &f) { (void)f; body; }, false, true})
 // bookkeeping of the expected values: not a library allocation, never faulted
 #define E(stmt) do { va::HarnessScope hs__; stmt; } while (0)
     // --- buffers, four element types
@@ -331,9 +476,215 @@ static std::vector<Op> table()
     IOP("wostream<<string", std::wostringstream os; os << *f.s[1]; if (!os) throw std::bad_alloc());
     IOP("istream>>string", std::istringstream is(f.sv[1] + " second"); is >> *f.s[0]; if (!is) throw std::bad_alloc(); E(f.sv[0] = f.sv[1]));
     IOP("writef(ostream)", std::ostringstream os; ST::writef(os, "{} {>300} {}", *f.s[1], 5, *f.s[2]); if (!os) throw std::bad_alloc());
+    // --- scale phase only: operations on objects in states that are only reached at scale
+    // a stream that once held >= 64 KiB, was cut back to a few bytes and now gets more than fits into its block, in one call
+    SOP("big stream: append_char just beyond the capacity", f.stream_prefix_ok = true; f.ss->append_char('y', f.stream_room + 1));
+    SOP("big stream: append_char far beyond the capacity", f.stream_prefix_ok = true; f.ss->append_char('y', 2 * f.stream_cap + 3));
+    SOP("big stream: append(ptr,len) just beyond the capacity", f.stream_prefix_ok = true; f.ss->append(f.blob.data(), f.stream_room + 1));
+    SOP("big stream: append(ptr,len) far beyond the capacity", f.stream_prefix_ok = true; f.ss->append(f.blob.data(), f.blob.size()));
+    SOP("big stream: << const char* beyond the capacity", f.stream_prefix_ok = true; *f.ss << f.blob.c_str());
+    SOP("big stream: << big string twice", f.stream_prefix_ok = true; *f.ss << *f.s[1] << *f.s[1]);
+    SOP("big stream: fill exactly to the capacity, then one more", f.stream_prefix_ok = true; f.ss->append_char('f', f.stream_room); f.ss->append_char('g'));
+    SOP("big stream: hundreds of appends across several doublings", f.stream_prefix_ok = true; for (size_t at = 0; at < f.blob.size(); at += 1000) f.ss->append(f.blob.data() + at, std::min<size_t>(1000, f.blob.size() - at)));
+    SOP("big stream: truncate() then regrow beyond the capacity", f.stream_prefix_ok = true; f.ss->truncate(); E(f.ssv.clear()); f.ss->append(f.blob.data(), f.stream_cap + 1));
+    SOP("big stream: erase all then << const char* beyond the capacity", f.stream_prefix_ok = true; f.ss->erase(f.ss->size()); E(f.ssv.clear()); *f.ss << f.blob.c_str());
+    SOP("big stream: move-construct, both appended to beyond the capacity", f.stream_moved = true; ST::string_stream other(std::move(*f.ss)); other.append_char('y', f.stream_cap + 1); f.ss->append_char('z', f.stream_cap + 1));
+    SOP("big stream: move-assigned a fresh stream, then regrown", f.stream_prefix_ok = true; *f.ss = ST::string_stream(); E(f.ssv.clear()); f.ss->append(f.blob.data(), f.blob.size()));
+    SOP("big stream: to_string of the cut-back stream, then regrow", f.stream_prefix_ok = true; ST::string x = f.ss->to_string(); f.ss->append_char('y', f.stream_room + 1); (void)x);
+    // big buffers / strings released and re-acquired, values of exactly the size the object already holds
+    SOP("big char_buffer cleared and re-allocated", f.cb->clear(); E(f.cbv.clear()); f.cb->allocate(f.sv[1].size(), 'k'); E(f.cbv.assign(f.sv[1].size(), 'k')));
+    SOP("big char_buffer.allocate(its own size)", f.cb->allocate(f.cb->size(), 'k'); E(f.cbv.assign(f.cbv.size(), 'k')));
+    SOP("big utf16_buffer.allocate(its own size)", f.b16->allocate(f.b16->size(), u'k'); E(f.b16v.assign(f.b16v.size(), u'k')));
+    SOP("big utf32_buffer.allocate(its own size)", f.b32->allocate(f.b32->size()); for (size_t i = 0; i < f.b32->size(); ++i) (*f.b32)[i] = U'k'; E(f.b32v.assign(f.b32v.size(), U'k')));
+    SOP("big wchar_buffer.allocate(its own size)", f.bw->allocate(f.bw->size(), L'k'); E(f.bwv.assign(f.bwv.size(), L'k')));
+    SOP("big char_buffer=char_buffer of exactly its size", ST::char_buffer src(f.cb->size(), 'z'); *f.cb = src; E(f.cbv.assign(f.cbv.size(), 'z')));
+    SOP("big utf16_buffer=utf16_buffer of exactly its size", ST::utf16_buffer src(f.b16->size(), u'z'); *f.b16 = src; E(f.b16v.assign(f.b16v.size(), u'z')));
+    SOP("big utf32_buffer=utf32_buffer of exactly its size", ST::utf32_buffer src(f.b32->size(), U'z'); *f.b32 = src; E(f.b32v.assign(f.b32v.size(), U'z')));
+    SOP("big wchar_buffer=wchar_buffer of exactly its size", ST::wchar_buffer src(f.bw->size(), L'z'); *f.bw = src; E(f.bwv.assign(f.bwv.size(), L'z')));
+    SOP("big char_buffer=char_buffer one shorter than it", ST::char_buffer src(f.cb->size() - 1, 'y'); *f.cb = src; E(f.cbv.assign(f.cbv.size() - 1, 'y')));
+    SOP("big char_buffer=char_buffer one longer than it", ST::char_buffer src(f.cb->size() + 1, 'y'); *f.cb = src; E(f.cbv.assign(f.cbv.size() + 1, 'y')));
+    SOP("big string=string of exactly its size", ST::string src = ST::string::fill(f.s[0]->size(), 'z'); *f.s[0] = src; E(f.sv[0].assign(f.sv[0].size(), 'z')));
+    SOP("big string.set(const char*,n) of exactly its size", S src; E(src.assign(f.sv[0].size(), 'z')); f.s[0]->set(src.data(), src.size(), ST::assume_valid); E(f.sv[0] = src));
+    SOP("big string=itself (same object)", ST::string &alias = *f.s[1]; *f.s[1] = alias);
+    SOP("big string cleared, then set again", f.s[0]->clear(); E(f.sv[0].clear()); f.s[0]->set(*f.s[1]); E(f.sv[0] = f.sv[1]));
+    SOP("big string: the argument cleared, the target copy-assigned from a third", f.s[1]->clear(); E(f.sv[1].clear()); *f.s[0] = *f.s[2]; E(f.sv[0] = f.sv[2]));
+    SOP("big copy-constructed char_buffer=char_buffer of exactly its size", ST::char_buffer src(f.cbc->size(), 'z'); *f.cbc = src; E(f.cbcv.assign(f.cbcv.size(), 'z')));
+    SOP("big copy-constructed string=string of exactly its size", ST::string src = ST::string::fill(f.sc->size(), 'z'); *f.sc = src; E(f.scv.assign(f.scv.size(), 'z')));
+    SOP("several copies of a big string alive at once", std::vector<ST::string> v; for (int i = 0; i < 6; ++i) v.push_back(*f.s[1]); ST::string last = v[0] + v[5]; (void)last);
+    SOP("several big buffers alive at once, cleared in turn", ST::char_buffer a(*f.cb); ST::char_buffer b(*f.cb); ST::char_buffer c(f.cb->size(), 'c'); a.clear(); ST::char_buffer d(*f.cb); b = c; c = d; d.allocate(f.cb->size()));
+    SOP("big substr / left / right at the ends", ST::string x = f.s[1]->substr(1, f.sv[1].size() - 2); ST::string y = f.s[1]->left(f.sv[1].size() - 1); ST::string z = f.s[1]->right(f.sv[1].size() - 1); (void)x; (void)y; (void)z);
+    SOP("big find/replace of a late needle", ST::string x = f.s[2]->replace("tail of", "TAIL OF"); ST::string y = f.s[2]->replace("tail", *f.s[1], ST::case_insensitive); (void)x; (void)y);
+    SOP("big split with a limit / after_first / before_last", auto v = f.s[2]->split(',', 2); ST::string x = f.s[2]->after_first(','); ST::string y = f.s[2]->before_last(','); (void)v; (void)x; (void)y);
+    SOP("big format: a padded field wider than 64 KiB and big strings", ST::string x = ST::format("{>70000}|{<66000}|{}", 5, "x", *f.s[1]); (void)x);
+    SOP("big hex/base64 round trips", ST::string h = ST::hex_encode(f.sv[1].data(), f.sv[1].size()); ST::char_buffer d = ST::hex_decode(h); ST::string b = ST::base64_encode(f.sv[1].data(), f.sv[1].size()); ST::char_buffer e = ST::base64_decode(b); (void)d; (void)e);
 #undef OP
 #undef IOP
+#undef SOP
     return t;
+}
+
+// One case of the enumeration: count the allocations N of the call on fresh fixtures, then re-run it on fresh fixtures with the
+// k-th allocation failing, for every k = 1..N (when N > max_all, which only the scale phase allows: the first and last ones
+// and a spread of the ones in between).  Returns N.
+static uint64_t enumerate_faults(const Op &op, const std::function<void(Fix &)> &setup, uint64_t max_all, Rng &r)
+{
+    // run 0: count the allocations of the call
+    uint64_t n = 0;
+    {
+        const size_t base = va::reg().live_lib;
+        {
+        Fix f;
+        {
+            va::LibScope ls;
+            setup(f);
+        }
+        g_k = 0;
+        g_max_request = 0;
+        vrt::cur_rewind();
+        vrt::cur_printf("op=%s %s (counting run)\n", g_op.c_str(), g_variant.c_str());
+        try {
+            va::LibScope ls;
+            op.run(f);
+            n = va::reg().lib_allocs;
+            g_max_request = va::reg().max_request;
+        } catch (const std::exception &e) {
+            fail("failed-without-a-fault", e.what());
+        }
+        f.verify_after_fault();        // same invariants hold after a successful call (values were updated by the op body)
+        f.teardown();
+        }
+        if (va::reg().live_lib != base) { fail("leak-without-a-fault", sfmt("%zu blocks", va::reg().live_lib - base)); va::reg().live_lib = base; }
+    }
+    std::vector<uint64_t> ks;
+    if (n <= max_all) {
+        for (uint64_t k = 1; k <= n; ++k) ks.push_back(k);
+    } else {
+        for (uint64_t k = 1; k <= max_all / 2; ++k) ks.push_back(k);
+        for (uint64_t j = 0; j < max_all / 4; ++j) ks.push_back(max_all / 2 + 1 + r.below(n - max_all / 2 - max_all / 4));
+        for (uint64_t k = n - max_all / 4 + 1; k <= n; ++k) ks.push_back(k);
+        vrt::count("scale.fault_indices_sampled");
+    }
+    for (uint64_t k : ks) {
+        const size_t base = va::reg().live_lib;
+        {
+        Fix f;
+        {
+            va::LibScope ls;
+            setup(f);
+        }
+        // remember the pre-fault values: the op bodies update the expectations only when they complete
+        S sv0 = f.sv[0], sv1 = f.sv[1], sv2 = f.sv[2], cbv = f.cbv, ssv = f.ssv, cbcv = f.cbcv, scv = f.scv;
+        std::u32string b32cv = f.b32cv;
+        std::u16string b16v = f.b16v; std::u32string b32v = f.b32v; std::wstring bwv = f.bwv;
+        g_k = static_cast<int64_t>(k);
+        vrt::cur_rewind();
+        vrt::cur_printf("op=%s %s failing allocation %llu of %llu\n", g_op.c_str(), g_variant.c_str(), static_cast<unsigned long long>(k), static_cast<unsigned long long>(n));
+        bool got_bad_alloc = false, completed = false;
+        va::fail_nth(static_cast<int64_t>(k));
+        try {
+            va::LibScope ls;
+            op.run(f);
+            completed = true;
+        } catch (const std::bad_alloc &) {
+            got_bad_alloc = true;
+        } catch (const std::exception &e) {
+            va::fail_off();
+            fail("wrong-exception", sfmt("%s: %s", vrt::demangle(typeid(e).name()).c_str(), e.what()));
+        }
+        const bool fired = va::reg().fired;
+        va::fail_off();
+        vrt::evals();
+        if (fired) vrt::count("faults.injected");
+        if (fired && got_bad_alloc) vrt::count("faults.bad_alloc_reached_caller");
+        if (fired && completed) {
+            if (op.iostream_protocol) vrt::count("faults.reported_through_stream_state");
+            else fail("bad_alloc-swallowed", "the call returned normally although one of its allocations failed");
+        }
+        if (!completed) {
+            // restore the pre-fault expectations (the op body may have updated some before the throwing statement)
+            f.sv[0] = sv0; f.sv[1] = sv1; f.sv[2] = sv2; f.cbv = cbv; f.ssv = ssv; f.b16v = b16v; f.b32v = b32v; f.bwv = bwv;
+            f.cbcv = cbcv; f.scv = scv; f.b32cv = b32cv;
+        }
+        f.verify_after_fault();
+        f.teardown();
+        }
+        if (va::reg().live_lib != base) {
+            fail("leak", sfmt("%zu library allocations survive the destruction of every object involved", va::reg().live_lib - base));
+            va::reg().live_lib = base;
+        }
+        va::check_pairing("oom");
+    }
+    return n;
+}
+
+// ---- content of the scale fixtures: lengths on and next to multiples of the block sizes, a pure function of the case's Rng
+static S scale_text(Rng &r, size_t n, bool ascii_only)
+{
+    // runs of letters with an occasional two-byte character; generated in blocks so that a MiB costs little
+    S unit;
+    const size_t ulen = 512 + r.below(512);
+    while (unit.size() < ulen) { if (!ascii_only && r.chance(1, 7)) ref::enc_utf8(unit, 0xE9); else unit += static_cast<char>('a' + r.below(26)); }
+    S t;
+    t.reserve(n + 2);
+    while (t.size() + unit.size() <= n) {
+        t += unit;
+        const size_t p = r.below(unit.size());
+        if (static_cast<unsigned char>(unit[p]) < 0x80) unit[p] = static_cast<char>('a' + r.below(26));
+    }
+    while (t.size() < n) t += static_cast<char>('a' + r.below(26));
+    return t;
+}
+
+static void make_big(Big &c, Rng &r, unsigned shape, size_t L)
+{
+    c.shape = shape;
+    c.L = L;
+    // 0: target exactly as long as the argument; 1: both big, different lengths; 2: short target, big argument; 3: big target, short argument
+    const size_t other = scale::length(r, 1u << 20, 60000);
+    c.sv[0] = shape == 2 ? scale_text(r, r.below(15), false) : scale_text(r, shape == 1 ? other : L, false);
+    c.sv[1] = shape == 3 ? scale_text(r, 1 + r.below(14), true) : scale_text(r, L, false);
+    {
+        // a few big pieces with the separators the split / trim / replace operations look for (few, so that the number of
+        // allocations of a call stays small enough for every one of them to be failed in turn)
+        const size_t pieces = 2 + r.below(4), total = scale::length(r, 1u << 20, 60000);
+        c.sv[2] = "a, b,c ,, ";
+        for (size_t i = 0; i < pieces; ++i) { c.sv[2] += scale_text(r, total / pieces, false); c.sv[2] += (i % 2) ? "," : ", "; }
+        c.sv[2] += " tail of a longer piece";
+    }
+    {
+        ref::Decoded d = ref::decode_utf8(c.sv[1]);
+        ref::to_utf16(d, false, c.b16v);
+        ref::to_utf32(d, false, c.b32v);
+        c.bwv.assign(c.b32v.begin(), c.b32v.end());
+    }
+    for (unsigned &h : c.hist) h = static_cast<unsigned>(r.below(N_HIST));
+    // the stream: once >= 64 KiB, now whole or cut back to <= 256 bytes (or a little more)
+    {
+        static const size_t keeps[] = {0, 1, 7, 15, 16, 17, 100, 255, 256, 257, 300, 5000};
+        static const size_t chunks[] = {0, 0, 17, 255, 1000, 4096, 65536};
+        c.stream_history = scale_text(r, scale::length(r, 1u << 20, 65536), true);
+        c.cut = shape == 3 ? 0 : 1 + static_cast<unsigned>(r.below(3));
+        c.keep = c.cut == 1 ? 0 : r.pick(keeps);
+        c.chunk = r.pick(chunks);
+    }
+    // ill-formed text of 64 KiB and more: damage on and next to multiples of the block sizes
+    {
+        static const char *const junk[] = {"\x80", "\xC3", "\xE2\x82", "\xF0\x9F\x98", "\xFF", "\xC0\x80", "\xF4\x90\x80\x80"};
+        const size_t n8 = scale::length(r, 200000, 65536), n16 = scale::length(r, 100000, 65536), n32 = scale::length(r, 100000, 65536);
+        c.bad8 = scale_text(r, n8, true);
+        c.bad16.assign(n16, u'w');
+        c.bad32.assign(n32, U'\x101');
+        const size_t pieces = 3 + r.below(12);
+        for (size_t i = 0; i < pieces; ++i) {
+            scale::plant(c.bad8, scale::offset_any(r, n8), junk[r.below(sizeof(junk) / sizeof(junk[0]))]);
+            c.bad16[std::min(n16 - 1, scale::offset_any(r, n16))] = static_cast<char16_t>(r.chance(1, 2) ? 0xD800 + r.below(0x400) : 0xDC00 + r.below(0x400));
+            c.bad32[std::min(n32 - 1, scale::offset_any(r, n32))] = static_cast<char32_t>(0x110000 + r.below(100));
+        }
+        c.bad8 += junk[r.below(sizeof(junk) / sizeof(junk[0]))];
+        c.bad8fix = ref::cleanup_utf8(c.bad8);
+        ref::to_utf8(ref::decode_utf16(c.bad16.data(), c.bad16.size()), false, c.bad16fix);
+        ref::to_utf8(ref::decode_utf32(c.bad32.data(), c.bad32.size()), false, c.bad32fix);
+    }
 }
 
 static void body()
@@ -341,7 +692,9 @@ static void body()
     vrt::require("faults.injected", 500);
     vrt::require("faults.bad_alloc_reached_caller", 500);
     vrt::require("ops.covered", 119);
-    static const std::vector<Op> ops = table();
+    static const std::vector<Op> all_ops = table();
+    static std::vector<Op> ops;
+    for (const Op &o : all_ops) if (!o.scale_only) ops.push_back(o);
     const size_t nvar = vrt::tier_count(40, 160);      // random fillings per (operation, storage-mode combination)
     vrt::note(sfmt("fault enumeration: %zu allocating operations x 4 storage-mode combinations (short/long target x short/long argument) x %zu random fillings x every allocation index k = 1..N of the call", ops.size(), nvar));
     vrt::phase("fault_enumeration", ops.size() * 4 * nvar, [&](uint64_t idx, Rng &r) {
@@ -351,88 +704,73 @@ static void body()
         g_op = op.name;
         g_variant = sfmt("target=%s argument=%s filling #%llu", lt ? "long" : "short", la ? "long" : "short", static_cast<unsigned long long>(idx / (ops.size() * 4)));
         const uint64_t fixseed = r.next();
-        // run 0: count the allocations of the call
-        uint64_t n = 0;
-        {
-            const size_t base = va::reg().live_lib;
-            {
-            Rng fr(fixseed);
-            Fix f;
-            {
-                va::LibScope ls;
-                f.setup(fr, lt, la);
-            }
-            g_k = 0;
-            vrt::cur_rewind();
-            vrt::cur_printf("op=%s %s (counting run)\n", g_op.c_str(), g_variant.c_str());
-            try {
-                va::LibScope ls;
-                op.run(f);
-                n = va::reg().lib_allocs;
-            } catch (const std::exception &e) {
-                fail("failed-without-a-fault", e.what());
-            }
-            f.verify_after_fault();        // same invariants hold after a successful call (values were updated by the op body)
-            f.teardown();
-            }
-            if (va::reg().live_lib != base) { fail("leak-without-a-fault", sfmt("%zu blocks", va::reg().live_lib - base)); va::reg().live_lib = base; }
-        }
+        const uint64_t n = enumerate_faults(op, [&](Fix &f) { Rng fr(fixseed); f.setup(fr, lt, la); }, UINT64_MAX, r);
         vrt::count(sfmt("allocs_per_call.%s", n == 0 ? "0" : n == 1 ? "1" : n <= 3 ? "2-3" : "4+"));
         if (idx < ops.size()) vrt::count("ops.covered");
-        for (uint64_t k = 1; k <= n; ++k) {
-            const size_t base = va::reg().live_lib;
-            {
-            Rng fr(fixseed);
-            Fix f;
-            {
-                va::LibScope ls;
-                f.setup(fr, lt, la);
-            }
-            // remember the pre-fault values: the op bodies update the expectations only when they complete
-            S sv0 = f.sv[0], sv1 = f.sv[1], sv2 = f.sv[2], cbv = f.cbv, ssv = f.ssv, cbcv = f.cbcv, scv = f.scv;
-            std::u32string b32cv = f.b32cv;
-            std::u16string b16v = f.b16v; std::u32string b32v = f.b32v; std::wstring bwv = f.bwv;
-            g_k = static_cast<int64_t>(k);
-            vrt::cur_rewind();
-            vrt::cur_printf("op=%s %s failing allocation %llu of %llu\n", g_op.c_str(), g_variant.c_str(), static_cast<unsigned long long>(k), static_cast<unsigned long long>(n));
-            bool got_bad_alloc = false, completed = false;
-            va::fail_nth(static_cast<int64_t>(k));
-            try {
-                va::LibScope ls;
-                op.run(f);
-                completed = true;
-            } catch (const std::bad_alloc &) {
-                got_bad_alloc = true;
-            } catch (const std::exception &e) {
-                va::fail_off();
-                fail("wrong-exception", sfmt("%s: %s", vrt::demangle(typeid(e).name()).c_str(), e.what()));
-            }
-            const bool fired = va::reg().fired;
-            va::fail_off();
-            vrt::evals();
-            if (fired) vrt::count("faults.injected");
-            if (fired && got_bad_alloc) vrt::count("faults.bad_alloc_reached_caller");
-            if (fired && completed) {
-                if (op.iostream_protocol) vrt::count("faults.reported_through_stream_state");
-                else fail("bad_alloc-swallowed", "the call returned normally although one of its allocations failed");
-            }
-            if (!completed) {
-                // restore the pre-fault expectations (the op body may have updated some before the throwing statement)
-                f.sv[0] = sv0; f.sv[1] = sv1; f.sv[2] = sv2; f.cbv = cbv; f.ssv = ssv; f.b16v = b16v; f.b32v = b32v; f.bwv = bwv;
-                f.cbcv = cbcv; f.scv = scv; f.b32cv = b32cv;
-            }
-            f.verify_after_fault();
-            f.teardown();
-            }
-            if (va::reg().live_lib != base) {
-                fail("leak", sfmt("%zu library allocations survive the destruction of every object involved", va::reg().live_lib - base));
-                va::reg().live_lib = base;
-            }
-            va::check_pairing("oom");
-        }
         vrt::distinct(vrt::fnv_u64(fixseed, vrt::fnv_str(op.name, mode + 151)));
         if (vrt::want_sample(op.name, 1) && n > 1) vrt::sample(op.name, sfmt("%s, %s: %llu allocations, each failed once", op.name, g_variant.c_str(), static_cast<unsigned long long>(n)), 1);
     });
+
+    // scale: the same table (plus operations on objects in states only reached at scale) on fixtures of 64 KiB .. 1 MiB whose
+    // lengths sit on / next to multiples of the block sizes: strings and buffers that were cleared and re-allocated, copy-assigned
+    // a value of exactly their own size, built by hundreds of appends; a stream that grew to >= 64 KiB, was cut back to <= 256
+    // bytes and is appended to beyond its capacity.  Same enumeration, same monitors.
+    {
+        vrt::require("scale.cases", 100);
+        vrt::require("scale.ops_covered", all_ops.size());
+        vrt::require("scale.faults.injected", 300);
+        vrt::require("scale.faults.in_calls_allocating>=64KiB", 100);
+        vrt::require("scale.stream.cut_back_then_grown_under_fault", 10);
+        vrt::require("scale.target_same_size_as_argument", 20);
+        vrt::require("scale.fixture>=512KiB", 10);
+        const std::vector<size_t> &BL = scale::blocks();
+        size_t first_big = 0;
+        while (BL[first_big] < 16384) ++first_big;
+        const size_t nb = BL.size() - first_big;
+        const size_t rounds = vrt::tier_count(4, 96);
+        vrt::phase("scale", all_ops.size() * rounds, [&](uint64_t idx, Rng &r) {
+            const Op &op = all_ops[idx % all_ops.size()];
+            const uint64_t j = idx / all_ops.size();
+            const unsigned shape = static_cast<unsigned>(j % 4);
+            // the length walks a grid block size x multiple; 16 KiB .. 48 KiB blocks only with multiples that reach 64 KiB
+            const size_t B = BL[first_big + (idx + j * 5) % nb];
+            const size_t qmax = std::min<size_t>(8, (1u << 20) / B);
+            size_t q = 1 + (idx / nb + j) % qmax;
+            while (q * B < 65535) ++q;
+            const long d = scale::nudge(r);
+            const size_t L = std::min<size_t>((1u << 20) + 9, static_cast<size_t>(static_cast<long>(q * B) + d));
+            g_op = op.name;
+            Big big;
+            {
+                va::HarnessScope hs;
+                make_big(big, r, shape, L);
+            }
+            g_variant = sfmt("scale shape=%u (%s) length=%zu*%zu%+ld target=%zu argument=%zu list=%zu stream: held %zu, %s, keeps %zu, appended in pieces of %zu; histories %u%u%u%u%u%u", shape,
+                             shape == 0 ? "target as long as the argument" : shape == 1 ? "both big" : shape == 2 ? "short target, big argument" : "big target, short argument", q, B, d,
+                             big.sv[0].size(), big.sv[1].size(), big.sv[2].size(), big.stream_history.size(), big.cut == 0 ? "whole" : big.cut == 1 ? "truncate()" : big.cut == 2 ? "truncate(n)" : "erase(n)",
+                             big.cut == 0 ? big.stream_history.size() : big.keep, big.chunk, big.hist[0], big.hist[1], big.hist[2], big.hist[3], big.hist[4], big.hist[5]);
+            const size_t saved_cap = va::reg().scope_cap;
+            va::reg().scope_cap = static_cast<size_t>(768) << 20;      // the fixtures are legitimately big
+            const uint64_t inj0 = vrt::counter("faults.injected");
+            size_t room = 0, cap = 0;
+            const uint64_t n = enumerate_faults(op, [&](Fix &f) { f.setup_scale(big); room = f.stream_room; cap = f.stream_cap; }, 48, r);
+            va::reg().scope_cap = saved_cap;
+            (void)room;
+            const uint64_t injected = vrt::counter("faults.injected") - inj0;
+            vrt::count("scale.cases");
+            vrt::count("scale.faults.injected", injected);
+            if (g_max_request >= 65536) vrt::count("scale.faults.in_calls_allocating>=64KiB", injected);
+            if (idx < all_ops.size()) vrt::count("scale.ops_covered");
+            if (op.scale_only) vrt::count("scale.cases.scale_only_operations");
+            vrt::count(sfmt("scale.shape.%u", shape));
+            vrt::count(sfmt("scale.allocs_per_call.%s", n == 0 ? "0" : n == 1 ? "1" : n <= 3 ? "2-3" : n <= 48 ? "4-48" : "49+"));
+            if (shape == 0) vrt::count("scale.target_same_size_as_argument");
+            if (L >= 524288) vrt::count("scale.fixture>=512KiB");
+            if (cap >= 65536 && big.cut != 0 && big.keep <= 256 && strstr(op.name, "stream") && injected > 0) vrt::count("scale.stream.cut_back_then_grown_under_fault");
+            vrt::distinct(vrt::fnv_u64(r.next(), vrt::fnv_str(op.name, shape + 977)));
+            if (vrt::want_sample("scale") && n > 1) vrt::sample("scale", sfmt("%s, %s: %llu allocations, each failed once", op.name, g_variant.c_str(), static_cast<unsigned long long>(n)));
+        });
+    }
 }
 
 VRT_MAIN(body)
